@@ -913,7 +913,7 @@ def jobs(tier):
     for func in ('ob_set', 'ob_set_file', 'ob_add', 'ob_add_file', 'ob_touch', 'ob_incr', 'ob_pop', 'ob_delete'):
         out.append(dict(id=func[3:] + '.busy.noretry', func=func, params=dict(N=NB, busy=1), tags=['C14', 'C08'], functions=FUNCS[func] + ['core.Cache._transact'],
                         weight=2, must_reach=['timeout_raised']))
-        out.append(dict(id=func[3:] + '.busy.retry', func=func, params=dict(N=NB, busy=1, retry=True), tags=['C14'], functions=FUNCS[func] + ['core.Cache._transact'],
+        out.append(dict(id=func[3:] + '.busy.retry', func=func, params=dict(N=NB, busy=1, retry=True), tags=['C14', 'C05'], functions=FUNCS[func] + ['core.Cache._transact'],
                         weight=20, must_reach=['lock_busy'], all_clauses=True))
     for func in ('ob_clear', 'ob_evict', 'ob_expire'):
         out.append(dict(id=func[3:] + '.busy.noretry', func=func, params=dict(N=NB, busy=1, bulk=True, page=1), tags=['C14', 'C08'], functions=FUNCS[func],
